@@ -938,7 +938,7 @@ def cat(tensors, dim=0):
 
     if tensors[0].is_ttm:
         raise InvalidArguments("Not implemented for tensor matrices.")
-    if not isinstance(dim, int) or dim < 0 or dim >= len(tensors[0].N):
+    if not isinstance(dim, (int, np.integer)) or dim < 0 or dim >= len(tensors[0].N):
         raise InvalidArguments("The concatenation dimension is out of range.")
     Rs = [tensors[0].R]
 
